@@ -36,9 +36,7 @@ def applicable(tag):
     return tag in ("F2", "F3")
 
 
-def load_safe(prop):
-    d = json.load(open(SAFE_FILE))
-    return {e["key"]: e["reason"] for e in d["entries"] if prop in e["properties"]}
+from .lib_safe import load_safe, entry_holds
 
 
 def parser_root(facts, what):
@@ -359,7 +357,13 @@ def run(facts, tier, ctx):
         sample = {"function": b.id, "construct": what, "site": b.loc(s["bb"], "term")}
         if f.key in safe:
             used.add(f.key)
-            ps.ok(dict(sample, verdict="SAFE", reason=safe[f.key]))
+            holds, why = entry_holds(facts, safe[f.key])
+            if holds:
+                ps.ok(dict(sample, verdict="SAFE", reason=safe[f.key]["reason"],
+                           machine_checked_premises=len(safe[f.key].get("requires", []))))
+            else:
+                f.message += "\nits SAFE entry no longer applies: " + why
+                ps.fail(f, dict(sample, verdict="FAIL", why=why))
         else:
             ps.fail(f, dict(sample, verdict="FAIL"))
     # machine-checked premise of the FrameHeader::block_size entry: the parser never builds a Reserved spec
